@@ -5,6 +5,7 @@ import (
 	"fmt"
 	"math"
 	"reflect"
+	"strconv"
 	"strings"
 
 	"github.com/ChrisTrenkamp/xsel"
@@ -16,7 +17,9 @@ import (
 
 // ---- C19: Unmarshal fills targets with the converted results of their tag queries ----
 
-var c19Tags = []string{".", "@x", "a", "a/b", "count(a)", "'s'", "1 div 0", "0 div 0", "//b", "$v", "$unbound", "((", "name()", "position()", "last()", "..", "string-length(.)", "-1.5", "300", "true()", "*", "node()", "a[1]", "''", "-7", "70000", "2.5", "1e3", "text()", "$ns"}
+var c19Tags = []string{".", "@x", "a", "a/b", "count(a)", "'s'", "1 div 0", "0 div 0", "//b", "$v", "$unbound", "((", "name()", "position()", "last()", "..", "string-length(.)", "-1.5", "300", "true()", "*", "node()", "a[1]", "''", "-7", "70000", "2.5", "1e3", "text()", "$ns",
+	// magnitudes around the limits of the 32- and 64-bit integer kinds
+	"18000000000000000000", "9223372036854775808", "-9223372036854775808", "9223372036854774784", "4294967296", "-2147483649", "18446744073709549568"}
 
 type c19Leaf struct {
 	S string `xsel:"."`
@@ -77,8 +80,12 @@ func representable(f float64, k reflect.Kind) bool {
 		return false
 	}
 	lim := map[reflect.Kind][2]float64{
-		reflect.Int: {-(1 << 62), 1 << 62}, reflect.Int8: {-128, 127}, reflect.Int16: {-32768, 32767}, reflect.Int32: {-(1 << 31), 1<<31 - 1}, reflect.Int64: {-(1 << 62), 1 << 62},
-		reflect.Uint: {0, 1 << 62}, reflect.Uint8: {0, 255}, reflect.Uint16: {0, 65535}, reflect.Uint32: {0, 1<<32 - 1}, reflect.Uint64: {0, 1 << 62},
+		// the largest doubles below 2^63 and 2^64 (64-bit int/uint: the harness runs on amd64/arm64)
+		reflect.Int: {-(1 << 63), 1<<63 - 1024}, reflect.Int8: {-128, 127}, reflect.Int16: {-32768, 32767}, reflect.Int32: {-(1 << 31), 1<<31 - 1}, reflect.Int64: {-(1 << 63), 1<<63 - 1024},
+		reflect.Uint: {0, 1<<64 - 2048}, reflect.Uint8: {0, 255}, reflect.Uint16: {0, 65535}, reflect.Uint32: {0, 1<<32 - 1}, reflect.Uint64: {0, 1<<64 - 2048},
+	}
+	if strconv.IntSize != 64 && (k == reflect.Int || k == reflect.Uint) {
+		return false
 	}
 	l, ok := lim[k]
 	return ok && f >= l[0] && f <= l[1]
